@@ -62,6 +62,18 @@ claimed["C20"]=dict(
    text="Uniqueness kernels: makeVariant returns a name that was not in use and marks exactly that name as used; cff.(*Outlines).makeNames (CID-keyed to simple conversion) leaves every glyph with a non-empty name, names pairwise distinct, glyph 0 named .notdef, for every input font with distinct non-nil glyphs; MakeGlyphNames returns a freshly allocated list (frame). Termination of the unbounded name searches is not claimed.",
    note="Assumes names.IsValid(\".notdef\") and fmt.Sprintf results at least as long as the literal part of the format. MakeGlyphNames' uniqueness/completeness invariant and 'existing names kept' (F17) are not decided; PostScriptName not under contract.",
    ref="DESIGN.md section 5 (C20)")
+claimed["C12"]=dict(
+   text="Metrics/header codecs proved field by field against the OpenType table layouts: maxp.Read/Encode (version, numGlyphs, 13 maxima at their byte offsets; Encode panics exactly for numGlyphs outside 1..65535), head.Read/Encode (version, magic, revision, flags bits 0/1/2/4, unitsPerEm, bounding box, macStyle bits 0/1/4/5/6, lowestRecPPEM, indexToLocFormat at offsets 0..52; 54 bytes), hmtx.Decode (ascent/descent/lineGap/caretOffset; advance widths and side bearings of every glyph incl. the repeated last width) and hmtx.Encode (36+4*numLong+2*(n-numLong) bytes, numLong is the least count with a constant tail, advanceWidthMax / minRightSideBearing / xMaxExtent equal their definitions as folds over the glyphs with ink). Read/Decode are total and return reader faults. Encode/decode pairs are inverse field by field because both sides are stated over the same byte offsets.",
+   note="Assumed: encoding/binary.Read fills a struct with the big-endian values of consecutive bytes; binary.Write appends binary.Size bytes (content of hhea bytes not modelled, so hhea field placement on the encode side is not decided); time conversion, caret angle (floats: toAngle/fromAngle) not decided. OS/2, post header, FontBBox/IsFixedPitch/average width derivations not under contract.",
+   ref="DESIGN.md section 5 (C12)")
+claimed["C13"]=dict(
+   text="CFF INDEX: cffIndex.encode chooses offSize in 1..4 such that every offset written fits (lossless: bodyLength+1 < 2^(8*offSize) is an obligation at the point where offsets are stored), offsets are 1 + the running sum of blob sizes, and the emitted size is 3+(count+1)*offSize+body; refuses (panics) for >= 65536 items or too much data; readIndex is total on arbitrary bytes (offsets validated monotone and inside the file before slicing, allocation bounded by the file size), returns reader faults. FDSelect is modelled as a pure function with range [0,nPrivate) (declared field contract). Charset, encoding, DICT numbers, strings, the offset fixed point of Font.Write are not under contract.",
+   note="Precondition: partial sums of blob sizes are monotone (true for non-negative sizes, not proved by induction). bytes.Buffer is modelled by its length only.",
+   ref="DESIGN.md section 5 (C13)")
+claimed["C14"]=dict(
+   text="post table glyph names: isMacRoman is true exactly for the standard 258-name Macintosh order (so format 1 is chosen only then); post.Encode is checked as an encoder: every narrowing conversion is a lossless obligation - the 16-bit glyph count and standard indices are proved, the Pascal string length and the custom name index are NOT lossless in general and are recorded as open known findings with witnesses.",
+   note="mac/UTF-16 codecs, name table storage and language tags are not under contract (string contents are uninterpreted in this engine).",
+   ref="DESIGN.md section 5 (C14)")
 na_reasons = {}
 m={"version":1,
  "setup_cmd":"cd /verif/engine && GOFLAGS=-mod=vendor GOPROXY=off GOSUMDB=off GOTOOLCHAIN=local go build -o ../bin/gvc ./cmd/gvc",
